@@ -679,7 +679,19 @@ func (w *World) registrations() []Registration {
 		var lit *ast.CompositeLit
 		inspectBody(f.Decl.Body, false, func(n ast.Node) bool {
 			rs, ok := n.(*ast.RangeStmt)
-			if !ok || rs.Value == nil || objOf(info, rs.Value) != o {
+			if !ok {
+				return true
+			}
+			// the value variable of a range over a slice, or the key variable of a range over a map
+			overMap := false
+			if tv, ok := info.Types[rs.X]; ok {
+				_, overMap = tv.Type.Underlying().(*types.Map)
+			}
+			if overMap {
+				if rs.Key == nil || objOf(info, rs.Key) != o {
+					return true
+				}
+			} else if rs.Value == nil || objOf(info, rs.Value) != o {
 				return true
 			}
 			switch x := unparen(rs.X).(type) {
@@ -734,6 +746,9 @@ func (w *World) registrations() []Registration {
 		}
 		var out []ast.Expr
 		for _, e := range lit.Elts {
+			if kv, isKV := e.(*ast.KeyValueExpr); isKV {
+				e = kv.Key // a map literal: its keys
+			}
 			if _, ok := constString(info, e); !ok {
 				return nil
 			}
@@ -808,12 +823,14 @@ func (w *World) registrations() []Registration {
 
 // prefixFn / infixFn: the parse function registered for a token.
 func (w *World) registeredFn(tok string, infix bool) *FuncInfo {
+	// a later registration of the same token replaces an earlier one (registrations are in source order)
+	var fn *FuncInfo
 	for _, r := range w.registrations() {
 		if r.Token == tok && r.Infix == infix {
-			return r.Fn
+			fn = r.Fn
 		}
 	}
-	return nil
+	return fn
 }
 
 // parserTokenFields identifies the parser's "current" and "peek" token fields
